@@ -734,6 +734,9 @@ class Rewriter:
         """R17: statement `EXPR.map(|x| CALL);` whose result is discarded -> `if let Some(x) = EXPR { CALL; }`"""
         pat = re.compile(r"(?m)^(\s*)([A-Za-z_][\w.]*)\.map\(\|(\w+)\|\s*([^;\n]*?)\);[ \t]*$")
         def f(m):
+            # a line that continues an initialiser / assignment (`let x =\n    opt.map(..);`) is not a discarded result
+            if re.search(r"[=(,|&+\-*/.]\s*$", text[:m.start()].rstrip(" \t\n")[-1:] or " "):
+                return m.group(0)
             self.count("R17 discarded Option::map with side effect -> if let")
             return "%sif let Some(%s) = %s { %s; }" % (m.group(1), m.group(3), m.group(2), m.group(4))
         return pat.sub(f, text)
